@@ -9,9 +9,9 @@ import (
 // relation "r" (self loops and cycles included); the incoming view is the transpose (C10 establishes that
 // consistency on the real store). The booleans are symbolic: the executor forks on a pair only when the
 // traversal under test actually reads it.
-const zzN = 4 // capacity; NODES (3 quick / 4 thorough) are in use
+const zzN = 10 // capacity; NODES (3 quick / 4 thorough) are in use by the all-graphs harnesses
 
-var zzNames = [zzN]string{"a", "b", "c", "d"}
+var zzNames = [zzN]string{"a", "b", "c", "d", "e", "f", "g", "h", "i", "j"}
 var zzCnt = 3
 var zzAdj [zzN][zzN]bool
 
@@ -188,6 +188,64 @@ func ZZVerifC11Subgraph() {
 	for _, ed := range res.Edges {
 		u, v := zzNodeIdx(ed.Source), zzNodeIdx(ed.Target)
 		rt.Assert(u >= 0 && v >= 0 && zzAdj[u][v], "VExtractSubgraph: every reported edge exists")
+	}
+	rt.Reach("end")
+}
+
+// ZZVerifC11TwoRoutes: source and target are joined by two disjoint routes of symbolic lengths p and q (1..4 hops)
+// whose intermediate nodes are enumerated in either order, plus one optional shortcut edge between the routes;
+// the returned path must have exactly the shortest length. This family reaches the shapes in which the two
+// search frontiers meet on a longer route first (odd/even lengths, meeting in the same iteration).
+func ZZVerifC11TwoRoutes() {
+	p := rt.IntRange("p", 1, rt.Param("ROUTE", 4))
+	q := rt.IntRange("q", 1, rt.Param("ROUTE", 4))
+	aFirst := rt.IntRange("order", 0, 1) == 0
+	// node numbering: 0 = source, 1 = target, then the intermediates of the two routes
+	zzCnt = 2 + (p - 1) + (q - 1)
+	for i := 0; i < zzCnt; i++ {
+		for j := 0; j < zzCnt; j++ {
+			zzAdj[i][j] = false
+		}
+	}
+	baseA, baseB := 2, 2+(p-1)
+	if !aFirst {
+		baseB, baseA = 2, 2+(q-1)
+	}
+	route := func(base, hops int) []int {
+		nodes := []int{0}
+		for k := 0; k < hops-1; k++ {
+			nodes = append(nodes, base+k)
+		}
+		return append(nodes, 1)
+	}
+	ra, rb := route(baseA, p), route(baseB, q)
+	for k := 0; k+1 < len(ra); k++ {
+		zzAdj[ra[k]][ra[k+1]] = true
+	}
+	for k := 0; k+1 < len(rb); k++ {
+		zzAdj[rb[k]][rb[k+1]] = true
+	}
+	// one optional symbolic shortcut between arbitrary nodes
+	if rt.IntRange("shortcut", 0, 1) == 1 && zzCnt > 2 {
+		u := rt.IntRange("from", 0, zzCnt-1)
+		v := rt.IntRange("to", 0, zzCnt-1)
+		zzAdj[u][v] = true
+	}
+	e := &Engine{}
+	res, err := e.FindPath("i0", zzNames[0], zzNames[1], []string{"r"}, 8, 0)
+	rt.Assert(err == nil && res != nil, "two routes: a path exists and is returned")
+	if res == nil {
+		return
+	}
+	hops := len(res.Path) - 1
+	for i := 0; i+1 < len(res.Path); i++ {
+		u, v := zzNodeIdx(res.Path[i]), zzNodeIdx(res.Path[i+1])
+		rt.Assert(u >= 0 && v >= 0 && zzAdj[u][v], "two routes: every hop is an existing edge in its direction")
+	}
+	rt.Assert(res.Path[0] == zzNames[0] && res.Path[hops] == zzNames[1], "two routes: path runs from source to target")
+	if hops > 0 {
+		shorter := zzReachWithin(0, hops-1, false)
+		rt.Assert(!shorter[1], "two routes: the returned path is a shortest one")
 	}
 	rt.Reach("end")
 }
